@@ -59,7 +59,7 @@ func peerOf(i int) transport.Peer {
 }
 
 // newNode opens a store (optionally a copy of a template file), seeds it and starts a real v2 protocol on it.
-func newNode(baseDir string, idx int, tmpl *template, seedTxs []*gtx) (*simNode, error) {
+func newNode(baseDir string, idx int, tmpl *template, seedTxs []*gtx, gossipMs int) (*simNode, error) {
 	dir := filepath.Join(baseDir, fmt.Sprintf("n%d", idx))
 	if err := os.MkdirAll(dir, 0o755); err != nil {
 		return nil, err
@@ -101,7 +101,7 @@ func newNode(baseDir string, idx int, tmpl *template, seedTxs []*gtx) (*simNode,
 	}, dag.WithSelectionFilter(func(e dag.Event) bool { return e.Type == dag.TransactionEventType })); err != nil {
 		return nil, err
 	}
-	cfg := v2.Config{Datadir: dir, PayloadRetryDelay: time.Hour, GossipInterval: 24 * 3600 * 1000, DiagnosticsInterval: 0}
+	cfg := v2.Config{Datadir: dir, PayloadRetryDelay: time.Hour, GossipInterval: gossipMs, DiagnosticsInterval: 0}
 	n.p = v2.New(cfg, did.DID{}, n.st, nil, nil, func() transport.Diagnostics { return transport.Diagnostics{} }, db)
 	v2.VerifAttach(n.p, n.list)
 	if err := n.p.Configure(transport.PeerID("c07-" + n.name)); err != nil {
@@ -200,6 +200,9 @@ func (s *sim) witness(extra map[string]any) map[string]any {
 
 func (s *sim) violation(key, what string, extra map[string]any) {
 	s.violated = true
+	if strings.HasPrefix(key, "C07/safety/invalid-admitted") {
+		invalidAdmitted.Add(1)
+	}
 	s.r.Violation(key, fmt.Sprintf("[scenario %d %s N=%d %s] %s", s.sc.idx, s.sc.class, s.sc.n, s.sc.topo, what), s.witness(extra))
 }
 
@@ -286,7 +289,7 @@ func (s *sim) deliver(m *wmsg, how string) {
 		s.stat("handled_"+strings.SplitN(m.origin, "/", 2)[0]+"/"+m.typ, 1)
 	}
 	if herr != nil {
-		s.stat("handler_refusals/"+m.typ, 1)
+		s.stat("handler_refusals/"+m.typ+"/"+shortErr(herr), 1)
 		s.trace[len(s.trace)-1] += " -> " + shortErr(herr)
 	}
 	s.history = append(s.history, m)
@@ -494,13 +497,35 @@ func (s *sim) releaseDue(all bool) {
 	s.held = keep
 }
 
+// adversary profiles: weights of (deliver any, deliver oldest, tick, drop, duplicate, delay, stale/unsolicited copy, timeout, forged message, create transaction)
+var profiles = map[string][10]int{
+	"chaotic": {38, 6, 14, 8, 6, 6, 6, 4, 8, 4},
+	"lossy":   {8, 2, 22, 36, 5, 8, 5, 4, 7, 3},
+	"quiet":   {0, 0, 0, 0, 0, 0, 0, 0, 0, 0}, // no fault phase at all: the fair phase starts from the initial DAGs
+}
+
 func (s *sim) faultStep() {
 	s.step++
 	s.releaseDue(false)
-	x := s.rnd.Intn(100)
+	wts := profiles[s.sc.profile]
+	total := 0
+	for _, w := range wts {
+		total += w
+	}
+	x := s.rnd.Intn(total)
+	action := 0
+	for ; action < len(wts)-1; action++ {
+		if x < wts[action] {
+			break
+		}
+		x -= wts[action]
+	}
 	nIn := len(s.inflight)
-	switch {
-	case x < 38 && nIn > 0:
+	if nIn == 0 && (action <= 1 || action >= 3 && action <= 5) {
+		action = 2 // nothing in flight: let a node gossip instead
+	}
+	switch action {
+	case 0:
 		i := s.rnd.Intn(nIn)
 		m := s.inflight[i]
 		for _, o := range s.inflight[:i] {
@@ -510,22 +535,22 @@ func (s *sim) faultStep() {
 			}
 		}
 		s.deliver(s.take(i), "deliver")
-	case x < 44 && nIn > 0:
+	case 1:
 		s.deliver(s.take(0), "deliver-oldest")
-	case x < 58 || nIn == 0 && x < 80:
+	case 2:
 		i := s.rnd.Intn(len(s.nodes))
 		peers := s.nodes[i].nbrs
 		if s.rnd.Intn(3) == 0 {
 			peers = []int{peers[s.rnd.Intn(len(peers))]}
 		}
 		s.tick(i, peers)
-	case x < 66 && nIn > 0:
+	case 3:
 		m := s.take(s.rnd.Intn(nIn))
 		s.stat("dropped/"+m.typ, 1)
 		s.stat("dropped", 1)
 		s.tracef("drop #%d %s %d>%d", m.seq, m.typ, m.from, m.to)
 		s.history = append(s.history, m)
-	case x < 72 && nIn > 0:
+	case 4:
 		m := s.inflight[s.rnd.Intn(nIn)]
 		s.seq++
 		cp := *m
@@ -534,13 +559,16 @@ func (s *sim) faultStep() {
 		s.stat("duplicated/"+m.typ, 1)
 		s.stat("duplicated", 1)
 		s.tracef("dup #%d->#%d %s %d>%d", m.seq, cp.seq, m.typ, m.from, m.to)
-	case x < 78 && nIn > 0:
+	case 5:
 		m := s.take(s.rnd.Intn(nIn))
 		m.release = s.step + 5 + s.rnd.Intn(80)
 		s.held = append(s.held, m)
 		s.stat("delayed", 1)
 		s.tracef("delay #%d %s %d>%d until %d", m.seq, m.typ, m.from, m.to, m.release)
-	case x < 84 && len(s.history) > 0:
+	case 6:
+		if len(s.history) == 0 {
+			return
+		}
 		m := s.history[s.rnd.Intn(len(s.history))]
 		s.seq++
 		cp := *m
@@ -557,18 +585,15 @@ func (s *sim) faultStep() {
 		s.stat("stale_injected/"+cp.origin+"/"+m.typ, 1)
 		s.stat("stale_injected", 1)
 		s.tracef("stale #%d->#%d %s %d>%d (%s)", m.seq, cp.seq, m.typ, cp.from, cp.to, cp.origin)
-	case x < 88:
-		i := s.rnd.Intn(len(s.nodes))
-		s.timeout(i, s.rnd.Intn(2) == 0)
-	case x < 95 && s.sc.hostile:
-		s.hostile()
-	case x < 98 && s.newTxs < s.sc.newTx:
-		s.createTx()
-	default:
-		if nIn > 0 {
-			s.deliver(s.take(s.rnd.Intn(nIn)), "deliver")
-		} else {
-			s.tick(s.rnd.Intn(len(s.nodes)), s.nodes[0].nbrs[:0])
+	case 7:
+		s.timeout(s.rnd.Intn(len(s.nodes)), s.rnd.Intn(2) == 0)
+	case 8:
+		if s.sc.hostile {
+			s.hostile()
+		}
+	case 9:
+		if s.newTxs < s.sc.newTx {
+			s.createTx()
 		}
 	}
 }
